@@ -558,6 +558,49 @@ def run(ctx):
     else:
         ctx.ok('C12.R5', "acceptance never requires an optional token: every accepting condition with ' e.p.' has a counterpart without it; "
                "'+'/'#' %s" % ('do not control the filter' if not used_check else 'are optional'), where(body, A['line']))
+    # R5c: Board::en_passant() is the square of the pawn that just made its double step -- not the square a capturer lands on.
+    # A condition that decides a rejection (or the skipping of a candidate) by comparing it with a destination square, without
+    # stepping back from that square, refuses the genuine capture and waves through the ordinary capture of that pawn.
+    EPCALL = 'board::Board::en_passant'
+    seen_cmp = 0
+    for b_, c_ in s.switches.items():
+        cn = norm(c_)
+        if not (cn[0] == 'call' and 'PartialEq' in cn[1] and (cn[1].endswith('::eq') or cn[1].endswith('::ne')) and len(cn[2]) == 2):
+            continue
+        sides = list(cn[2])
+        if not any(x[0] == 'call' and x[1] == EPCALL for x in sides):
+            continue
+        other = [x for x in sides if not (x[0] == 'call' and x[1] == EPCALL)]
+        if not other:
+            continue
+        o = other[0]
+        is_some_sq = o[0] == 'agg' and o[2] == 'Some'
+        # callee names reachable from the operand, named merge values (the parsed destination) expanded
+        names_, seen_, stack_ = set(), set(), [o]
+        while stack_:
+            x_ = stack_.pop()
+            if not isinstance(x_, tuple) or not x_ or id(x_) in seen_:
+                continue
+            seen_.add(id(x_))
+            if x_[0] == 'call' and isinstance(x_[1], str):
+                names_.add(x_[1].rsplit('::', 1)[-1])
+                if 'Square' in x_[1] and 'from_str' in x_[1]:
+                    names_.add('Square::from_str')
+            if x_[0] == 'var' and x_ in VAR_DEFS:
+                stack_.append(VAR_DEFS[x_])
+                continue
+            stack_.extend(c for c in x_ if isinstance(c, tuple))
+        txt = ' '.join(sorted(names_))
+        if not is_some_sq:
+            continue
+        seen_cmp += 1
+        steps_back = bool(names_ & {'ubackward', 'backward', 'uforward', 'forward', 'udown', 'uup', 'down', 'up'})
+        names_dest = bool(names_ & {'get_dest', 'make_square', 'Square::from_str'})
+        if names_dest and not steps_back:
+            ctx.violation('C12.R5', KEY + ':ep-square', 'a condition compares board.en_passant() (the square of the pawn that just double-stepped) '
+                          'with a destination square as it stands: ' + sh(cn, 200), where(body, body.blocks[b_]['term'].get('line')))
+    if seen_cmp == 0:
+        ctx.ok('C12.R5', 'no rejection is decided by comparing the en-passant pawn square with a destination square', w)
     # R6 castling recogniser
     eqs = []
     for c in s.calls:
